@@ -1046,13 +1046,25 @@ pub fn child18(seed: u64, idx: u64) -> Value {
                 let lim = 1i64 << (bps.clamp(1, 31) - 1);
                 let warm: Vec<i32> = (0..wl).map(|_| if rng.chance(1, 10) { lim as i32 } else { rng.range(-lim, lim - 1) as i32 }).collect();
                 let order = rng.usize_below(3);
-                let res = Residual::new(order, n, res_warm.min(n), &vec![2u8; 1 << order], &vec![0; n], &vec![0; n]);
+                // one case in four: the residual argument is not built with `Residual::new` but is
+                // what the crate's own parser hands out for a legal foreign residual coded with
+                // method 01 (5-bit Rice parameters, some of them above 14). Such a part has never
+                // been verified; a constructor that takes it must still either refuse or return a
+                // component that verifies.
+                let parsed_part = rng.chance(1, 4);
+                let res = if parsed_part {
+                    foreign_residual(&mut rng, n, res_warm.min(n).min(n >> order), order).ok_or(())
+                } else {
+                    Residual::new(order, n, res_warm.min(n), &vec![2u8; 1 << order], &vec![0; n], &vec![0; n]).map_err(|_| ())
+                };
                 let Ok(res) = res else {
                     desc = "residual refused".to_string();
                     return;
                 };
+                let res_warm = if parsed_part { res_warm.min(n).min(n >> order) } else { res_warm };
+                let n_tag = if parsed_part { "parsed 5-bit-parameter residual, " } else { "" };
                 if which == 5 {
-                    desc = format!("FixedLpc::new(warm_up.len={wl}, residual(n={n}, warmup={res_warm}, order={order}), bps={bps})");
+                    desc = format!("FixedLpc::new(warm_up.len={wl}, {n_tag}residual(n={n}, warmup={res_warm}, order={order}), bps={bps})");
                     if let Ok(c) = FixedLpc::new(&warm, res, bps) {
                         post!("FixedLpc", c, |b: &[u8], _bits: usize| {
                             let pb = pad(b);
@@ -1068,7 +1080,7 @@ pub fn child18(seed: u64, idx: u64) -> Value {
                         desc = "parameters refused".to_string();
                         return;
                     };
-                    desc = format!("Lpc::new(warm_up.len={wl}, params(order={qorder}, precision={precision}), residual(n={n}, warmup={res_warm}, order={order}), bps={bps})");
+                    desc = format!("Lpc::new(warm_up.len={wl}, params(order={qorder}, precision={precision}), {n_tag}residual(n={n}, warmup={res_warm}, order={order}), bps={bps})");
                     if let Ok(c) = Lpc::new(&warm, qp, res, bps) {
                         post!("Lpc", c, |b: &[u8], _bits: usize| {
                             let pb = pad(b);
@@ -1138,9 +1150,12 @@ pub fn child18(seed: u64, idx: u64) -> Value {
                 for ch in 0..nch {
                     let w = bps + assign.bits_per_sample_offset(ch);
                     let lim = 1i64 << (w - 1);
-                    let kind = rng.usize_below(3);
-                    kinds.push_str(["C", "V", "F"][kind]);
+                    // kind 3 (one in seven): a subframe that comes from the crate's parser (foreign
+                    // residual with 5-bit Rice parameters), i.e. a part nobody has verified
+                    let kind = if rng.chance(1, 7) { 3 } else { rng.usize_below(3) };
+                    kinds.push_str(["C", "V", "F", "P"][kind]);
                     let sf: Option<SubFrame> = match kind {
+                        3 => foreign_fixed_subframe(&mut rng, n, w),
                         0 => Constant::new(n, rng.range(-lim, lim - 1) as i32, w).ok().map(Into::into),
                         1 => Verbatim::new(&(0..n).map(|_| rng.range(-lim, lim - 1) as i32).collect::<Vec<_>>(), w).ok().map(Into::into),
                         _ => {
@@ -1180,7 +1195,18 @@ pub fn child18(seed: u64, idx: u64) -> Value {
                 let sbps = if rng.chance(2, 3) { hbps } else { *rng.pick(&[8usize, 12, 16, 24]) };
                 desc = format!("Frame::new(header(block={hb}, ch={hch}, bps={hbps}), {nsub} x Constant(block={sb}, bps={sbps}))");
                 let Ok(h) = FrameHeader::new(hb, ChannelAssignment::Independent(hch as u8), hbps, 44100, FrameOffset::Frame(3)) else { return };
-                let subs: Vec<SubFrame> = (0..nsub).filter_map(|_| Constant::new(sb, 1, sbps).ok().map(Into::into)).collect();
+                // half of the cases: only ONE subframe (at a random channel) disagrees with the
+                // header, the others match it
+                let odd_at = if rng.flip() { Some(rng.usize_below(nsub.max(1))) } else { None };
+                if let Some(o) = odd_at {
+                    desc = format!("{desc} [only subframe {o} differs]");
+                }
+                let subs: Vec<SubFrame> = (0..nsub)
+                    .filter_map(|i| {
+                        let (b, w) = if odd_at.is_none() || odd_at == Some(i) { (sb, sbps) } else { (hb, hbps) };
+                        Constant::new(b, 1, w).ok().map(Into::into)
+                    })
+                    .collect();
                 if let Ok(c) = Frame::new(h, subs.into_iter()) {
                     let si = StreamInfo::new(44100, hch, hbps).unwrap();
                     post!("Frame", c, |b: &[u8], _bits: usize| {
@@ -1280,6 +1306,68 @@ pub fn child18(seed: u64, idx: u64) -> Value {
     let _ = d2;
     let viol: Vec<(String, String)> = viol.into_iter().map(|(s, d)| (s, format!("{desc}: {d}"))).collect();
     json!({"violations": viol, "accepted": accepted, "which": which, "desc": desc})
+}
+
+/// A legal residual of `n` samples (partition order `order`, `warmup` warm-up samples) written by
+/// the harness's own bit writer with coding method 01 (5-bit Rice parameters, a third of them in
+/// 15..=30) and read by the crate's parser: the only public way to a `Residual` that has not been
+/// through `Residual::new`.
+fn foreign_residual(rng: &mut Rng, n: usize, warmup: usize, order: usize) -> Option<Residual> {
+    type BitErr<'a> = nom::error::Error<(&'a [u8], usize)>;
+    let mut m = crate::bitmodel::BitVec::new();
+    if !foreign_residual_bits(rng, &mut m, n, warmup, order) {
+        return None;
+    }
+    let mut bytes = m.bytes.clone();
+    bytes.extend_from_slice(&[0u8; 8]);
+    let mut p = flacenc::component::parser::residual::<BitErr<'_>>(n, warmup);
+    p((&bytes[..], 0)).ok().map(|(_, x)| x)
+}
+
+fn foreign_residual_bits(rng: &mut Rng, m: &mut crate::bitmodel::BitVec, n: usize, warmup: usize, order: usize) -> bool {
+    let parts = 1usize << order;
+    if n % parts != 0 || (n >> order) < warmup || n == 0 {
+        return false;
+    }
+    let plen = n >> order;
+    m.push_lsbs(1, 2);
+    m.push_lsbs(order as u64, 4);
+    for part in 0..parts {
+        let p = if rng.chance(1, 3) { 15 + rng.usize_below(16) } else { rng.usize_below(15) };
+        m.push_lsbs(p as u64, 5);
+        for _ in (part * plen).max(warmup)..(part + 1) * plen {
+            m.push_zeros(rng.usize_below(3));
+            m.push_lsbs(1, 1);
+            if p > 0 {
+                m.push_lsbs(rng.next_u64() & ((1u64 << p) - 1), p);
+            }
+        }
+    }
+    true
+}
+
+/// A fixed-predictor subframe (order 0..=4, width `w`) around such a foreign residual, as the
+/// crate's `parser::subframe` reads it: a `SubFrame` no constructor has seen.
+fn foreign_fixed_subframe(rng: &mut Rng, n: usize, w: usize) -> Option<SubFrame> {
+    type BitErr<'a> = nom::error::Error<(&'a [u8], usize)>;
+    let order = rng.usize_below(5).min(n);
+    let mut m = crate::bitmodel::BitVec::new();
+    m.push_lsbs(0, 1);
+    m.push_lsbs(0b001000 | order as u64, 6);
+    m.push_lsbs(0, 1);
+    let lim = 1i64 << (w - 1);
+    for _ in 0..order {
+        let v = rng.range(-lim, lim - 1);
+        m.push_lsbs((v as u64) & ((1u64 << w) - 1), w);
+    }
+    let po = if n % 4 == 0 && n / 4 >= order { rng.usize_below(3) } else { 0 };
+    if !foreign_residual_bits(rng, &mut m, n, order, po) {
+        return None;
+    }
+    let mut bytes = m.bytes.clone();
+    bytes.extend_from_slice(&[0u8; 8]);
+    let mut p = flacenc::component::parser::subframe::<BitErr<'_>>(n, w);
+    p((&bytes[..], 0)).ok().map(|(_, x)| x)
 }
 
 // ================================================================ parent side
